@@ -173,6 +173,7 @@ func (d *Disk) event(op string, fd storage.FileDesc, n int) *Fault {
 		f.fired++
 		d.St.Fired[f.Kind+"/"+op+"/"+ftName(fd.Type)]++
 		d.LastFaultAt = d.St.Events
+		simrt.Progress() // bounded liveness is judged from the last fault onwards
 		if f.Kind == "stall" {
 			ms := f.StallMs
 			if ms <= 0 {
